@@ -1,9 +1,10 @@
-(* Extraction of the export / import text model (C18) for its correspondence driver.
+(* Extraction of the export / import text model (C18) and of the message re-creation model
+   (C08, Model/Encoding.v) for their correspondence driver.
    Only ExtrOcamlBasic is used: N / positive / nat stay the extracted inductive datatypes. *)
 From Coq Require Import Extraction ExtrOcamlBasic.
-From StgV Require Import Model.Chars Model.Export.
+From StgV Require Import Model.Chars Model.Export Model.Encoding.
 
 Extraction Language OCaml.
 Extraction "../ocaml/emodel.ml" Export.split_patch Export.parse_message Export.parse_name_email
   Export.specialize Export.descr_split Export.export_file Export.import_file Export.default_template
-  Export.diff_is_empty Export.utf8_valid.
+  Export.diff_is_empty Export.utf8_valid Encoding.recreate Encoding.git_text.
